@@ -37,4 +37,6 @@ Abs2(a)      == <<"abs2", a>>
 AbsT(a)      == <<"abs", a>>
 Zeta(k, M)   == <<"zeta", k, M>>       \* exp(2 pi i k / M)
 Var(name)    == <<"var", name>>        \* free variable bound by the harness
+XLogX(a)     == <<"xlogx", a>>         \* a ln a, continued by its limit 0 at a = 0
+Trapz(xs, ys) == <<"trapz", xs, ys>>   \* trapezoid rule over the sequences of abscissae xs and ordinates ys
 =============================================================================
